@@ -97,6 +97,12 @@ var stmtGroups = map[string][]stmtTarget{
 		{"go/consensus/cometbft/light/store.go", "prunedStore", "DeleteLightBlock", "deleteLightBlock"},
 		{"go/consensus/cometbft/light/client.go", "Client", "LastTrustedHeight", "lastTrustedHeight"},
 	},
+	// C16: nil-ness flow of the quote policy from the (untrusted) TEE constraints blob to quote verification
+	// (OasisModel/Tee/PolicyFlow.lean)
+	"teepolicy": {
+		{"go/common/sgx/quote/quote.go", "Quote", "Verify", "quoteVerify"},
+		{"go/common/node/tee.go", "TEEFeaturesSGX", "ApplyDefaultConstraints", "applyDefaultConstraints"},
+	},
 	// C04: lookup with a proof builder (OasisModel/Mkvs/Proof.lean doGet inclusion, ProofPosition.lean)
 	"lookup": {
 		{"go/storage/mkvs/lookup.go", "tree", "doGet", "doGet"},
